@@ -73,6 +73,14 @@ pub struct ChainSpec {
 	/// whatever else holds, so only webpki (which ignores CA key usage) is asked in this mode.
 	#[serde(default)]
 	pub webpki_only_ku: bool,
+	/// sub-second part and UTC offset in which the callers states every validity instant
+	#[serde(default)]
+	pub time_nanos: u32,
+	#[serde(default)]
+	pub time_offset: i32,
+	/// no name constraints anywhere in the chain (certificates can then be free of extensions)
+	#[serde(default)]
+	pub no_nc: bool,
 	pub violation: Option<Violation>,
 }
 
@@ -100,6 +108,7 @@ fn chain_spec() -> BoxedStrategy<ChainSpec> {
 			prop::bool::weighted(0.25),
 			prop::bool::weighted(0.35),
 			prop::bool::weighted(0.12),
+			(prop_oneof![2 => Just(0u32), 1 => 1u32..1_000_000_000], prop_oneof![2 => Just(0i32), 1 => -86_399i32..=86_399], prop::bool::weighted(0.3)),
 		),
 		prop_oneof![
 			3 => Just(None),
@@ -119,7 +128,7 @@ fn chain_spec() -> BoxedStrategy<ChainSpec> {
 		],
 	)
 		.prop_map(
-			|((three_level, keys, kids, at, client_purpose, root_path_len, inter_path_len, (nc_on_root, four_level)), (domain, v6, net, prefix, host_bits, ca_ku, leaf_extra_ekus, leaf_eku_empty, dns_dot, webpki_only_ku), violation)| {
+			|((three_level, keys, kids, at, client_purpose, root_path_len, inter_path_len, (nc_on_root, four_level)), (domain, v6, net, prefix, host_bits, ca_ku, leaf_extra_ekus, leaf_eku_empty, dns_dot, webpki_only_ku, (time_nanos, time_offset, no_nc)), violation)| {
 				let width = if v6 { 16 } else { 4 };
 				let prefix = if v6 { prefix } else { (prefix - 1) % 32 + 1 };
 				let four_level = four_level || matches!(violation, Some(Violation::PathLenIntermediate));
@@ -145,6 +154,13 @@ fn chain_spec() -> BoxedStrategy<ChainSpec> {
 					dns_dot: dns_dot || matches!(violation, Some(Violation::PermittedDnsBare) | Some(Violation::BareOutsideExcludedDot)),
 					// the keyCertSign dimension is about OpenSSL's verdict
 					webpki_only_ku: webpki_only_ku && !matches!(violation, Some(Violation::KeyCertSign)),
+					time_nanos,
+					time_offset,
+					no_nc: no_nc
+						&& !matches!(
+							violation,
+							Some(Violation::PermittedDns) | Some(Violation::ExcludedDns) | Some(Violation::PermittedIp) | Some(Violation::ExcludedIp) | Some(Violation::PermittedDnsBare) | Some(Violation::BareOutsideExcludedDot)
+						),
 					violation,
 				}
 			},
@@ -176,12 +192,17 @@ fn build(c: &ChainSpec, violation: Option<&Violation>) -> Result<Built3, String>
 	let purpose_eku = if c.client_purpose { EkuSpec::ClientAuth } else { EkuSpec::ServerAuth };
 	let other_eku = if c.client_purpose { EkuSpec::ServerAuth } else { EkuSpec::ClientAuth };
 	let day = 86400;
+	// the same instants, stated with the case's sub-second part and UTC offset (validity is judged at
+	// whole seconds: the margins are a day wide)
+	let dress = |(a, b): (TimeSpec, TimeSpec)| -> (TimeSpec, TimeSpec) {
+		(TimeSpec { unix: a.unix, nanos: c.time_nanos, offset: c.time_offset }, TimeSpec { unix: b.unix, nanos: c.time_nanos, offset: c.time_offset })
+	};
 	let window = |w: Which| -> (TimeSpec, TimeSpec) {
-		match violation {
+		dress(match violation {
 			Some(Violation::TimeBefore(x)) if *x == w => window_around(c.at, -(day), 400 * day), // starts after `at`
 			Some(Violation::TimeAfter(x)) if *x == w => window_around(c.at, 400 * day, -(day)), // ended before `at`
 			_ => window_around(c.at, 30 * day, 300 * day),
-		}
+		})
 	};
 	let name = |s: &str| DnSpec(vec![(DnTypeSpec::Org, DnValueSpec::new(StrKind::Utf8, s))]);
 
@@ -252,11 +273,13 @@ fn build(c: &ChainSpec, violation: Option<&Violation>) -> Result<Built3, String>
 	inter2.key_usages = ca_ku.clone();
 	inter2.use_aki = true;
 	inter2.is_ca = IsCaSpec::CaUnconstrained;
-	let (nb2, na2) = window_around(c.at, 30 * day, 300 * day);
+	let (nb2, na2) = dress(window_around(c.at, 30 * day, 300 * day));
 	inter2.not_before = nb2;
 	inter2.not_after = na2;
 
-	if c.nc_on_root || !c.three_level {
+	if c.no_nc {
+		// nothing
+	} else if c.nc_on_root || !c.three_level {
 		root.name_constraints = Some(nc);
 	} else {
 		inter.name_constraints = Some(nc);
@@ -341,6 +364,12 @@ pub fn check_chain(c: &ChainSpec, info: &mut CaseInfo) -> Result<(), String> {
 	if c.dns_dot {
 		info.class("dns-subtree:leading-dot");
 	}
+	if c.time_nanos != 0 || c.time_offset != 0 {
+		info.class("validity-stated-with-nanos-or-offset");
+	}
+	if c.no_nc {
+		info.class("no-name-constraints");
+	}
 	if c.webpki_only_ku {
 		info.class("ca-ku-without-keyCertSign(webpki only)");
 		if o.is_ok() {
@@ -409,7 +438,7 @@ pub fn check_chain(c: &ChainSpec, info: &mut CaseInfo) -> Result<(), String> {
 pub fn def() -> PropertyDef {
 	PropertyDef {
 		id: "C12",
-		rule: "Chains root -> [intermediate] -> leaf generated by rcgen with a baseline that satisfies every constraint (CA flags, path lengths >= depth, validity windows covering the verification time, permitted DNS + IP subnets containing the leaf's names, excluded subtrees elsewhere, leaf EKU containing the requested purpose or absent, CA key usages empty or containing keyCertSign), and the same chain with exactly one dimension violated (issuer not a CA with and without explicit basicConstraints, path length, time before/after for each certificate, permitted/excluded DNS in both the plain and the subdomains-only \".domain\" form (a leaf naming the bare domain is outside a permitted \".domain\" and must be rejected, and outside an excluded \".domain\" and must be accepted), permitted/excluded IPv4/IPv6 subnets with prefix lengths 1..32 / 1..128, EKU, keyCertSign). In a 12% share of cases every CA declares key usages without keyCertSign, which OpenSSL must refuse outright and webpki ignores, so that the other dimensions (path lengths in particular) are judged by webpki alone on certificates with that key usage. Oracle: OpenSSL X509_verify_cert (explicit time and purpose) and webpki verify_for_usage accept the baseline and reject the violated chain, each for the dimensions its documented semantics cover. Every case is non-trivial (a baseline with constraints present or a single-violation pair).",
+		rule: "Chains root -> [intermediate] -> leaf generated by rcgen with a baseline that satisfies every constraint (CA flags, path lengths >= depth, validity windows covering the verification time, permitted DNS + IP subnets containing the leaf's names, excluded subtrees elsewhere, leaf EKU containing the requested purpose or absent, CA key usages empty or containing keyCertSign), and the same chain with exactly one dimension violated (issuer not a CA with and without explicit basicConstraints, path length, time before/after for each certificate, permitted/excluded DNS in both the plain and the subdomains-only \".domain\" form (a leaf naming the bare domain is outside a permitted \".domain\" and must be rejected, and outside an excluded \".domain\" and must be accepted), permitted/excluded IPv4/IPv6 subnets with prefix lengths 1..32 / 1..128, EKU, keyCertSign). Validity instants are stated with a generated sub-second part and UTC offset in a third of the cases, and 30 % of the chains carry no name constraints at all (so that a non-CA issuer can be a certificate without any extension). In a 12% share of cases every CA declares key usages without keyCertSign, which OpenSSL must refuse outright and webpki ignores, so that the other dimensions (path lengths in particular) are judged by webpki alone on certificates with that key usage. Oracle: OpenSSL X509_verify_cert (explicit time and purpose) and webpki verify_for_usage accept the baseline and reject the violated chain, each for the dimensions its documented semantics cover. Every case is non-trivial (a baseline with constraints present or a single-violation pair).",
 		assumptions: vec![
 			"OpenSSL and webpki implement RFC 5280 path validation for the dimensions each is asked about",
 			"webpki is not asked about the trust anchor's own CA flag, validity or key usage, which it does not examine",
